@@ -91,6 +91,8 @@ class Kernel:
         self.events = []
         self.seq = 0
         self.history = []
+        self.keep_times = False
+        self.time_of = {}
         self.aborting = False
         self.finished = False
         self.end_reason = None
@@ -141,6 +143,8 @@ class Kernel:
         self.seq += 1
         cur = self.current.name if self.current is not None else "-"
         self.history.append((self.seq, cur, kind) + details)
+        if self.keep_times:
+            self.time_of[self.seq] = self.now
         return self.seq
 
     def probe(self, name, n=1):
